@@ -29,7 +29,7 @@ namespace Exponax
 
 open Exponax.Interface in
 /-- `Advection` with a scalar velocity `v` takes the same step (whole spectrum) as `GeneralLinearStepper` with
-    `linear_coefficients = (0, −v)` on the same `D`, `L`, `N`, `dt`; every `D ≥ 0`, `N`, complex `L`, `dt`. -/
+    `linear_coefficients = (0, −v)` on the same `D`, `L`, `N`, `dt`; every `D`, `N`, complex `L`, `dt`. -/
 theorem C13_advection_step_is_general_linear_step :
     ∀ (a : Gen.StepperWiring.AdvectionArgs ℂ) (v : ℂ),
       a.velocity = Gen.StepperWiring.Arg.scalar v →
